@@ -127,14 +127,14 @@ prop('C15',
      assumptions=[A_VERUS, A_EXTRACT, A_KANI,
                   'A-bitset: bit_set::BitSet insert/remove/contains behave as a mathematical set of usize (external crate, trusted stub)',
                   'A-lit: in the Verus unit Literal is a two-field stub (label, polarity); the bit packing it stands for is proved on the real code by the Kani harnesses of this same check',
-                  'A-cnf-new: Cnf::new (iterator-adapter code) is a trusted stub where condition calls it: the stored clause list has the meaning of the given one and every label is below num_vars'],
+                  'A-std-sort-dedup: Vec::sort_by_key and Vec::dedup (std, no Verus specification) are stubs in Cnf::new that promise only that the vector keeps exactly its set of elements; nothing about order, so the sort key carries no proof weight', 'A-clone: Vec<Literal>::clone returns an equal vector'],
      replay='cnf',
      bounded_extra=['hasher'],
      explanation='Cnf::eval == "every clause has a literal true under the assignment" and Cnf::is_sat_partial == "every clause has a literal ASSIGNED true" (empty clause => false, empty list => true), '
                  'by nested loop invariants over the real loops; Cnf::condition against substitution of the literal; PartialModel get/set/unset/is_set/lit_implied/lit_neg_implied and VarSet insert/remove/contains against a set view, with the frame '
                  '(other variables unchanged) and the invariant that no variable is in both sets; Literal bit packing by Kani over all u64 x bool',
      not_covered=[
-         'Cnf::new (iterator chains, sort_by_key, dedup) [bounded check `cnf` only]', 'Cnf::condition is under contract -- (F | l) evaluates on every assignment a like F on a with l\'s variable set to l\'s polarity, by invariants over the two real loops (whole clause skipped on a literal equal to l, the opposite literal dropped) -- with two declared loop-header rewrites (R-for-while: labelled `continue` needs a `while`) and its final call `Cnf::new(&new_cnf)` answered by the stub of A-cnf-new [+ bounded check `cnf`]', 'CnfHasher (HashSet; external prime sieve; labelled continue): the residual-formula hasher sentence of the property has a bounded check only (`hasher`)',
+         'Cnf::new is under contract -- same number of clauses, clause by clause the same set of literals, hence the same meaning on every assignment, every label below num_vars -- with declared rewrites (R-map-collect, R-max twice, the hasher initialiser dropped) and the std methods sort_by_key / dedup as stubs that keep exactly the set of elements (A-std-sort-dedup); precondition: labels fit 63 bits [+ bounded check `cnf`]', 'Cnf::condition is under contract -- (F | l) evaluates on every assignment a like F on a with l\'s variable set to l\'s polarity, by invariants over the two real loops (whole clause skipped on a literal equal to l, the opposite literal dropped) -- with two declared loop-header rewrites (R-for-while: labelled `continue` needs a `while`); its final call `Cnf::new(&new_cnf)` is answered by the proved contract of Cnf::new [+ bounded check `cnf`]', 'CnfHasher (HashSet; external prime sieve; labelled continue): the residual-formula hasher sentence of the property has a bounded check only (`hasher`)',
          'AssignmentIter::next (fold closure) and Cnf::wmc (brute-force counting) [bounded check `cnf` only; it found the empty-formula defect fixed in 18754bc]',
          'PartialModel::new / from_assignments / from_total_model / from_litvec are under contract (variable i gets exactly entry i; the last literal on a variable wins; everything else unset; never in both sets) with declared header rewrites (R-enumerate, R-map-collect) and BitSet::new / with_capacity as stubs returning the empty set (A-bitset)', 'VarSet union / minus / intersect_varset / difference and PartialModel assignment_iter / difference (BitSet iterator adapters) [bounded check `cnf` only]',
      ])
